@@ -213,6 +213,16 @@ def check_faults(ctx: Ctx, case):
                          f"{type(e).__name__}: {str(e)[:100]}", sub, one)
                 return
             cleanup_threads(cal, before)
+            if not rl:
+                # round-robin: the batch that failed was never recorded, so it is still that sampler's turn
+                smp = cal.scheduler.samplers[b % len(cal.scheduler.samplers)]
+                new_rows = len(cal.losses_samp) - rows
+                exp_id = cal.samplers_id_table[type(smp).__name__]
+                if new_rows != smp.batch_size or set(cal.method_samp[rows:].tolist()) != {exp_id}:
+                    ctx.fail("C11/not-reusable", f"after a fault in {kind} invocation {idx} during batch {b}, the next calibrate(1) "
+                             f"recorded {new_rows} rows labelled {sorted(set(cal.method_samp[rows:].tolist()))}; batch {b} belongs "
+                             f"to {type(smp).__name__} (id {exp_id}, batch size {smp.batch_size})", sub, one)
+                    return
             lens = {k: len(getattr(cal, k)) for k in calib.HIST}
             if len(set(lens.values())) != 1 or cal.n_sampled_params != lens["losses_samp"] or lens["losses_samp"] <= rows or \
                     cal.current_batch_index != b + 1 or not calib.same_values(cal.losses_samp[:rows], ref["losses_samp"][:rows]):
